@@ -1,0 +1,18 @@
+//go:build !verif
+
+package bbolt
+
+// Without the `verif` build tag the verification hooks are empty and their
+// call sites compile to nothing. See verif_hooks_on.go.
+
+type verifCursorState struct{}
+
+func verifCursorStep(c *Cursor) {}
+
+func verifYield(point string) {}
+
+func verifBefore(db *DB, op string, off int64, data []byte, size int64) error { return nil }
+
+func verifAfter(db *DB, op string, off int64, data []byte, size int64, err error) {}
+
+func verifWrapOps(db *DB) {}
